@@ -141,8 +141,8 @@ CloseOne(s) ==
       st1 == Exit(s.stack)
       popped == SubSeq(s.open, 1, Len(s.open) - 1)
   IN CASE c.kind \in {"if", "else", "while", "for"} ->
-            LET node == CASE c.kind = "if" -> <<"If", c.cond, body, <<"None">> >>
-                          [] c.kind = "else" -> <<"If", c.cond, c.thenb, body>>
+            LET node == CASE c.kind = "if" -> <<"If", c.cond, body, FALSE, <<>> >>
+                          [] c.kind = "else" -> <<"If", c.cond, c.thenb, TRUE, body>>
                           [] c.kind = "while" -> <<"While", c.cond, body>>
                           [] c.kind = "for" -> <<"For", c.var, c.it, body>>
             IN AppendStmt([s EXCEPT !.stack = st1, !.open = popped, !.ann = (s.ann \/ (c.kind = "else" /\ c.wasAnn))], outer, node)
@@ -319,7 +319,7 @@ OpenFor(v, it, block) ==
 
 (* else: only directly after the true body of an if has closed; the If node is re-opened *)
 LastIsIf == LET cur == out[Len(out)] IN cur # <<>> /\ Len(cur[Len(cur)]) >= 1 /\
-              (LET n == cur[Len(cur)] IN (n[1] = "If" /\ n[4] = <<"None">>) \/ (n[1] = "Annotated" /\ n[2][1] = "If" /\ n[2][4] = <<"None">>))
+              (LET n == cur[Len(cur)] IN (n[1] = "If" /\ n[4] = FALSE) \/ (n[1] = "Annotated" /\ n[2][1] = "If" /\ n[2][4] = FALSE))
 OpenElse(block) ==
   LET cur == out[Len(out)]
       last == cur[Len(cur)]
